@@ -166,11 +166,11 @@ type harness struct {
 }
 
 type pairState struct {
-	p          *simnet.Pair
-	inc        *inc
-	stallUntil [2]time.Time
-	finiteTill time.Time // s2c buffer is bounded until then (zero: unbounded)
-	sawBlocked bool
+	p                *simnet.Pair
+	inc              *inc
+	stallUntil       [2]time.Time
+	finiteTill       time.Time // s2c buffer is bounded until then (zero: unbounded)
+	sawBlocked       bool
 	stallWhenBlocked time.Duration
 }
 
@@ -1185,6 +1185,7 @@ func simulate(r *core.R) {
 				return
 			}
 			if partial {
+				r.Fault("reset_after_partial_delivery")
 				deliverOne(ps, simnet.S2C, f)
 			}
 			ph := phaseOf(ps)
